@@ -1,31 +1,187 @@
-(* The retry-delay wait loop (handle_delay_between_attempts) under stop / continue. *)
+(* The retry-delay wait loop (handle_delay_between_attempts) under stop / continue: a finite check
+   of the three arm evaluations, lifted to every request sequence the dispatcher can produce. *)
 From NextestModel Require Import Base.Str Base.Tac Model.Clocks Model.UnitTimers Model.AbsTimers
   Proofs.Timers.
 Open Scope N_scope.
 
-(* finite check on the regenerated table: from the running state Stop pauses both delay clocks and
-   acknowledges; from the paused state Continue resumes both; a Continue without a preceding Stop
-   changes nothing; nothing panics *)
 Definition dclocks (paused : bool) : clocks :=
-  {| k_sw := swc_new; k_isl := slc_new 0; k_gsl := slc_new 0; k_wsw := swc_new;
+  {| k_sw := {| act := 0; spaused := false |}; k_isl := {| rem := 0; lpaused := false |};
+     k_gsl := {| rem := 0; lpaused := false |}; k_wsw := {| act := 0; spaused := false |};
      k_dsl := {| rem := 0; lpaused := paused |}; k_dwsw := {| act := 0; spaused := paused |} |}.
 
-Definition dflags (c : clocks) : bool * bool := (lpaused (k_dsl c), spaused (k_dwsw c)).
+Definition swc_eqb (a b : swc) : bool := (act a =? act b) && Bool.eqb (spaused a) (spaused b).
+Definition slc_eqb (a b : slc) : bool := (rem a =? rem b) && Bool.eqb (lpaused a) (lpaused b).
+Definition clocks_eqb (a b : clocks) : bool :=
+  swc_eqb (k_sw a) (k_sw b) && slc_eqb (k_isl a) (k_isl b) && slc_eqb (k_gsl a) (k_gsl b) &&
+  swc_eqb (k_wsw a) (k_wsw b) && slc_eqb (k_dsl a) (k_dsl b) && swc_eqb (k_dwsw a) (k_dwsw b).
 
+(* finite check on the regenerated table: from the running state Stop pauses both delay clocks
+   (and nothing else) and acknowledges; from the paused state Continue resumes both; a Continue
+   without a preceding Stop changes nothing; nothing panics *)
 Definition dcert (tbl : ptable) : bool :=
   match exec_arm true (dclocks false) (t_delay_stop tbl),
         exec_arm true (dclocks true) (t_delay_cont tbl),
         exec_arm true (dclocks false) (t_delay_cont tbl) with
   | Ok (c1, o1), Ok (c2, o2), Ok (c3, o3) =>
-      (fst (dflags c1) && snd (dflags c1) && acked o1) &&
-      (negb (fst (dflags c2)) && negb (snd (dflags c2))) &&
-      (negb (fst (dflags c3)) && negb (snd (dflags c3)))
+      clocks_eqb c1 (dclocks true) && acked o1 &&
+      clocks_eqb c2 (dclocks false) && clocks_eqb c3 (dclocks false)
   | _, _, _ => false
   end.
 
-(* pause-table operations on the delay clocks depend only on the paused flags *)
-Definition dz (c : clocks) : clocks := dclocks (lpaused (k_dsl c)).
+Lemma swc_eqb_eq a b : swc_eqb a b = true -> a = b.
+Proof.
+  destruct a, b. unfold swc_eqb. cbn. intros H. apply andb_prop in H as [H1 H2].
+  apply N.eqb_eq in H1. apply Bool.eqb_prop in H2. subst. reflexivity.
+Qed.
+Lemma slc_eqb_eq a b : slc_eqb a b = true -> a = b.
+Proof.
+  destruct a, b. unfold slc_eqb. cbn. intros H. apply andb_prop in H as [H1 H2].
+  apply N.eqb_eq in H1. apply Bool.eqb_prop in H2. subst. reflexivity.
+Qed.
+Lemma clocks_eqb_eq a b : clocks_eqb a b = true -> a = b.
+Proof.
+  destruct a as [a1 a2 a3 a4 a5 a6], b as [b1 b2 b3 b4 b5 b6]. unfold clocks_eqb.
+  cbn [k_sw k_isl k_gsl k_wsw k_dsl k_dwsw]. intros H.
+  apply andb_prop in H as [H H6]. apply andb_prop in H as [H H5]. apply andb_prop in H as [H H4].
+  apply andb_prop in H as [H H3]. apply andb_prop in H as [H1 H2].
+  apply swc_eqb_eq in H1, H4, H6. apply slc_eqb_eq in H2, H3, H5. subst. reflexivity.
+Qed.
 
-Definition dinv (s : dstate) (t : jc) : Prop :=
-  lpaused (k_dsl (d_ck s)) = spaused (k_dwsw (d_ck s)) /\
-  (lpaused (k_dsl (d_ck s)) = true <-> t = JStop).
+(* requests of the dispatcher as seen by the delay loop *)
+Definition denv_ok (j : jc) (e : devent) : bool :=
+  match e with
+  | DReq RStop => match j with JStop => false | _ => true end
+  | DReq RContinue => match j with JCont => false | _ => true end
+  | _ => true
+  end.
+Definition denv_next (j : jc) (e : devent) : jc :=
+  match e with DReq RStop => JStop | DReq RContinue => JCont | _ => j end.
+Fixpoint denv_trace (j : jc) (es : list devent) : bool :=
+  match es with
+  | [] => true
+  | e :: es' => denv_ok j e && denv_trace (denv_next j e) es'
+  end.
+
+Fixpoint drun (tbl : ptable) (s : dstate) (es : list devent) : outcome (dstate * list uout) :=
+  match es with
+  | [] => Ok (s, [])
+  | e :: es' =>
+      obind (dstep tbl s e) (fun r1 =>
+      obind (drun tbl (fst r1) es') (fun r2 => Ok (fst r2, snd r1 ++ snd r2)))
+  end.
+
+Definition is_stop (j : jc) : bool := match j with JStop => true | _ => false end.
+
+(* invariant: while the loop is still waiting, the pause flags are those of [dclocks] *)
+Definition dinv (s : dstate) (j : jc) : Prop :=
+  d_done s = false -> zclocks (d_ck s) = dclocks (is_stop j).
+
+Lemma zclocks_tick dt c : zclocks (clocks_tick dt c) = zclocks c.
+Proof.
+  destruct c as [[a1 b1] [r2 b2] [r3 b3] [a4 b4] [r5 b5] [a6 b6]].
+  destruct b1, b2, b3, b4, b5, b6; reflexivity.
+Qed.
+
+Lemma zclocks_dclocks b : zclocks (dclocks b) = dclocks b.
+Proof. reflexivity. Qed.
+
+Lemma dinit_inv delay : dinv (dinit delay) JNone.
+Proof. intros _. reflexivity. Qed.
+
+Lemma arm_on_flags c b a r :
+  zclocks c = dclocks b -> exec_arm true (dclocks b) a = Ok r ->
+  exists r', exec_arm true c a = Ok r' /\ zclocks (fst r') = zclocks (fst r) /\ snd r' = snd r.
+Proof.
+  intros Hz Hr. pose proof (exec_arm_z true a c) as H. rewrite Hz, Hr in H.
+  destruct (exec_arm true c a) as [r'|]; [|discriminate].
+  exists r'. split; [reflexivity|]. cbn [omap] in H. injection H as H.
+  unfold zres in H. destruct r as [c1 o1]. injection H as H1 H2.
+  cbn [fst snd]. split; [|symmetry; exact H2].
+  rewrite H1. destruct (fst r') as [[? ?] [? ?] [? ?] [? ?] [? ?] [? ?]]. reflexivity.
+Qed.
+
+Section DCert.
+  Variable tbl : ptable.
+  Hypothesis Hc : dcert tbl = true.
+
+  Lemma dcert_parts :
+    exists o1 o2 o3,
+      exec_arm true (dclocks false) (t_delay_stop tbl) = Ok (dclocks true, o1) /\ acked o1 = true /\
+      exec_arm true (dclocks true) (t_delay_cont tbl) = Ok (dclocks false, o2) /\
+      exec_arm true (dclocks false) (t_delay_cont tbl) = Ok (dclocks false, o3).
+  Proof.
+    unfold dcert in Hc.
+    destruct (exec_arm true (dclocks false) (t_delay_stop tbl)) as [[c1 o1]|]; [|discriminate].
+    destruct (exec_arm true (dclocks true) (t_delay_cont tbl)) as [[c2 o2]|]; [|discriminate].
+    destruct (exec_arm true (dclocks false) (t_delay_cont tbl)) as [[c3 o3]|]; [|discriminate].
+    apply andb_prop in Hc as [H H3]. apply andb_prop in H as [H H2]. apply andb_prop in H as [H1 Ha].
+    apply clocks_eqb_eq in H1, H2, H3. subst.
+    exists o1, o2, o3. repeat split; auto.
+  Qed.
+
+  (* one step: no panic, the invariant is kept, and Stop / Continue have their effect *)
+  Lemma dstep_sound s j e :
+    dinv s j -> denv_ok j e = true ->
+    exists r, dstep tbl s e = Ok r /\ dinv (fst r) (denv_next j e) /\
+      (d_done s = false -> e = DReq RStop ->
+         lpaused (k_dsl (d_ck (fst r))) = true /\ spaused (k_dwsw (d_ck (fst r))) = true /\
+         acked (snd r) = true) /\
+      (d_done s = false -> e = DReq RContinue ->
+         lpaused (k_dsl (d_ck (fst r))) = false /\ spaused (k_dwsw (d_ck (fst r))) = false).
+  Proof.
+    intros Hinv Hok. destruct dcert_parts as (o1 & o2 & o3 & E1 & A1 & E2 & E3).
+    unfold dstep. destruct (d_done s) eqn:Hd.
+    - exists (s, []). split; [reflexivity|]. split; [intros Hd'; cbn in Hd'; congruence|].
+      split; intros; discriminate.
+    - specialize (Hinv Hd).
+      destruct e as [dt| |[| |sr| |]].
+      + eexists. split; [reflexivity|]. split.
+        * intros _. cbn [fst d_ck denv_next]. rewrite zclocks_tick. exact Hinv.
+        * split; intros; discriminate.
+      + destruct (slc_due (k_dsl (d_ck s))); eexists; (split; [reflexivity|]); split;
+          try (intros Hd'; cbn in Hd'; try discriminate; exact Hinv); split; intros; discriminate.
+      + (* Stop *)
+        assert (Hj : is_stop j = false) by (destruct j; cbn in Hok; try discriminate; reflexivity).
+        rewrite Hj in Hinv.
+        destruct (arm_on_flags (d_ck s) false (t_delay_stop tbl) _ Hinv E1) as (r' & Er & Hz & Ho).
+        rewrite Er. cbn [obind]. eexists. split; [reflexivity|]. cbn [fst snd d_ck denv_next is_stop].
+        cbn [fst] in Hz. rewrite zclocks_dclocks in Hz.
+        split; [intros _; exact Hz|]. split; [|intros; discriminate].
+        intros _ _. rewrite Ho. cbn [snd].
+        assert (F : lpaused (k_dsl (zclocks (fst r'))) = true /\ spaused (k_dwsw (zclocks (fst r'))) = true)
+          by (rewrite Hz; split; reflexivity).
+        destruct F as [F1 F2]. repeat split; try assumption.
+      + (* Continue *)
+        destruct (is_stop j) eqn:Hj.
+        * destruct (arm_on_flags (d_ck s) true (t_delay_cont tbl) _ Hinv E2) as (r' & Er & Hz & Ho).
+          rewrite Er. cbn [obind]. eexists. split; [reflexivity|]. cbn [fst snd d_ck denv_next is_stop].
+          cbn [fst] in Hz. rewrite zclocks_dclocks in Hz.
+          split; [intros _; exact Hz|]. split; [intros; discriminate|].
+          intros _ _.
+          assert (F : lpaused (k_dsl (zclocks (fst r'))) = false /\ spaused (k_dwsw (zclocks (fst r'))) = false)
+            by (rewrite Hz; split; reflexivity).
+          exact F.
+        * destruct (arm_on_flags (d_ck s) false (t_delay_cont tbl) _ Hinv E3) as (r' & Er & Hz & Ho).
+          rewrite Er. cbn [obind]. eexists. split; [reflexivity|]. cbn [fst snd d_ck denv_next is_stop].
+          cbn [fst] in Hz. rewrite zclocks_dclocks in Hz.
+          split; [intros _; exact Hz|]. split; [intros; discriminate|].
+          intros _ _.
+          assert (F : lpaused (k_dsl (zclocks (fst r'))) = false /\ spaused (k_dwsw (zclocks (fst r'))) = false)
+            by (rewrite Hz; split; reflexivity).
+          exact F.
+      + eexists. split; [reflexivity|]. split; [intros Hd'; discriminate|]. split; intros; discriminate.
+      + eexists. split; [reflexivity|]. split; [intros Hd'; discriminate|]. split; intros; discriminate.
+      + eexists. split; [reflexivity|]. split; [intros _; exact Hinv|]. split; intros; discriminate.
+  Qed.
+
+  Theorem delay_no_panic : forall es s j,
+    dinv s j -> denv_trace j es = true -> drun tbl s es <> Panicked.
+  Proof.
+    induction es as [|e es IH]; intros s j Hinv Ht; cbn [drun]; [discriminate|].
+    cbn [denv_trace] in Ht. apply andb_prop in Ht as [Hok Ht].
+    destruct (dstep_sound s j e Hinv Hok) as (r & Er & Hinv' & _).
+    rewrite Er. cbn [obind].
+    specialize (IH (fst r) (denv_next j e) Hinv' Ht).
+    destruct (drun tbl (fst r) es); [discriminate|contradiction].
+  Qed.
+End DCert.
